@@ -314,9 +314,17 @@ pub fn monitor(out: &RunOut) -> MonOut {
                         if seen == cur {
                             committed_model = Some(md.clone());
                         } else {
-                            let prev_ok = committed_model.as_ref().map(|c| restored(&l.presets, c) == seen).unwrap_or(true)
-                                || snaps.iter().any(|c| restored(&l.presets, c) == seen);
-                            if !prev_ok {
+                            let snap_ok = snaps.iter().any(|c| restored(&l.presets, c) == seen);
+                            let prev_ok = committed_model.as_ref().map(|c| restored(&l.presets, c) == seen).unwrap_or(true) || snap_ok;
+                            if snap_ok {
+                                // the record as it was right before a change by the embedder: the library read
+                                // the app set before that change and commits after it - a legitimate content
+                                // of this commit whatever else it carries; it is what storage holds from now on
+                                m.count("R3.commits_with_app_data_read_before_an_embedder_change");
+                                if let Some(sn) = snaps.iter().find(|c| restored(&l.presets, c) == seen) {
+                                    committed_model = Some(sn.clone());
+                                }
+                            } else if !prev_ok {
                                 m.viol(p, "R3", &site, format!("committed state restores apps {:?}: neither the previous commit nor the current record {:?}", seen, cur));
                             } else if let Some(b) = &before {
                                 // the apps are still those of the previous commit: then the check's result
